@@ -72,6 +72,16 @@ func c03SetCore(c *Ctx, rule string) {
 	c03Impl(c, setImpl{"maps", "Set", "maps.(Set).", false})
 }
 
+// c03SliceHelper: the Slice rows of both implementations, recorded under a helper rule.
+func c03SliceHelper(c *Ctx, rule string) {
+	savedOnly, savedAlias := c.Only, c.R.Alias
+	c.Only = map[string]bool{"maps.(Set).Slice": true, "sync2.(*Set).Slice": true}
+	c.R.Alias = map[string]string{"change-reporting": rule, "enumeration-source": rule, "operator-table": rule, "operands-readonly": rule, "result-fresh": rule, "range-stops": rule}
+	defer func() { c.Only, c.R.Alias = savedOnly, savedAlias }()
+	c03Impl(c, setImpl{"maps", "Set", "maps.(Set).", false})
+	c03Impl(c, setImpl{"sync2", "Set", "sync2.(*Set).", true})
+}
+
 // isSetMutator: call names that change a set
 func isSetMutatorName(n string) bool {
 	for _, s := range []string{".Add", ".AddSet", ".Remove", ".RemoveSet", ".Store", ".LoadOrStore", ".LoadAndDelete", ".Delete"} {
@@ -407,6 +417,46 @@ func c03Impl(c *Ctx, im setImpl) {
 								for _, q := range cp.Paths {
 									if len(q.Rets) != 1 || !q.Rets[0].IsConst("true") {
 										ok, why = false, "the enumeration can stop early"
+									}
+								}
+								if name == "Slice" {
+									// the result is assembled by appending each enumerated key, once, to a slice that starts empty:
+									// a slice pre-sized by an earlier count and filled by index keeps zero values (non-members)
+									// when the set shrinks between the count and the enumeration
+									for _, q := range cp.Paths {
+										appends := 0
+										for k := range q.Events {
+											ev := &q.Events[k]
+											if ev.Kind != "store" {
+												continue
+											}
+											if ev.Addr.Op == "iaddr" && ev.Addr.Args[0].Op == "alloc" {
+												continue // the variadic argument array of append
+											}
+											v := ev.Val
+											if (ev.Addr.Op == "free" || ev.Addr.Op == "alloc") && v.Op == "builtin" && v.Sym == "append" && len(v.Args) == 2 &&
+												v.Args[0].Op == "load" && v.Args[0].Args[0].Key() == ev.Addr.Key() {
+												if el, single := appendedElem(q, v.Args[0], v); single && isParam(el, 0) {
+													appends++
+													continue
+												}
+											}
+											appends = -99
+										}
+										if appends != 1 || len(q.Conds) != 0 {
+											ok, why = false, "the result is not built by appending every enumerated member exactly once (a pre-sized or index-filled result can hold values that are not members)"
+										}
+									}
+									// the cell starts out empty in the enclosing function
+									for k := range p.Events {
+										ev := &p.Events[k]
+										if ev.Kind == "store" && ev.Addr.Op == "alloc" && len(p.Rets) == 1 && p.Rets[0].Op == "load" && p.Rets[0].Args[0].Key() == ev.Addr.Key() {
+											v := ev.Val
+											empty := v.IsNil() || v.Op == "zero" || (v.Op == "mkslice" && len(v.Args) >= 1 && v.Args[0].IsConst("0"))
+											if !empty {
+												ok, why = false, "the result does not start out empty: "+v.String()
+											}
+										}
 									}
 								}
 								if name == "Len" {
